@@ -71,6 +71,36 @@ def prepare_package(scratch):
 	return package
 
 
+def robust_coq_eval(imports, exprs, tag, shard=50, timeout=900):
+	"""common.coq_eval, except that a case on which the MODEL exhausts its resources (a mutated count makes read_array_go recurse tens of
+	thousands of frames: vm stack overflow / minutes of evaluation) yields the outcome 'crash:OutOfFuel' (run_network's exhausted class)
+	instead of aborting the run.  Only the shard that failed is re-evaluated case by case."""
+	try:
+		return common.coq_eval(imports, exprs, tag, shard=shard, timeout=timeout)
+	except RuntimeError:
+		pass
+
+	def one(job):
+		position, chunk = job
+		try:
+			return common.coq_eval(imports, chunk, f'{tag}r{position}', shard=len(chunk), timeout=120)
+		except RuntimeError:
+			return None
+	chunks = [(position, exprs[position:position + shard]) for position in range(0, len(exprs), shard)]
+	with concurrent.futures.ThreadPoolExecutor(max_workers=max(2, common.NCPU // 2)) as pool:
+		results = list(pool.map(one, chunks))
+	values = []
+	for (position, chunk), result in zip(chunks, results):
+		if result is not None:
+			values += result
+			continue
+		singles = [(f'{position}_{offset}', [expr]) for offset, expr in enumerate(chunk)]
+		with concurrent.futures.ThreadPoolExecutor(max_workers=common.NCPU) as pool:
+			for single in pool.map(one, singles):
+				values.append(single[0] if single is not None else 'crash:OutOfFuel')
+	return values
+
+
 def failure_reason(text):
 	"""Stable short reason of a failed generator run / import: exception type and the innermost frame's function."""
 	lines = [line for line in text.strip().split('\n') if line.strip()]
@@ -97,6 +127,10 @@ class SchemaCheck:
 		self.seed = seed
 		self.extra = {}
 		self.failed = 0
+
+	def flush(self):
+		exhausted = sum(value for key, value in self.extra.items() if key.endswith('_exhausted_cases'))
+		self.check.extra['exhausted_cases'] = self.check.extra.get('exhausted_cases', 0) + exhausted
 
 	def case(self, kind, key, nontrivial=True):
 		kind = re.sub(r'^s\d+:', '', kind)
@@ -176,7 +210,13 @@ def run_schema(check, scratch, package, index, schema, seed, generated, per_clas
 		check.fail(f'c15:import-fails:{reason}', f'generated module does not import: {type(ex).__name__}: {ex}', dict(base_replay, op='import'))
 		return None
 	check.case('import', (index, len(text_a)))
-	c01.run_network(view, net, per_class, mutants)
+	saved = c01.coq_eval
+	c01.coq_eval = robust_coq_eval
+	try:
+		c01.run_network(view, net, per_class, mutants)
+	finally:
+		c01.coq_eval = saved
+	view.flush()
 	return net
 
 
